@@ -133,6 +133,8 @@ def run_verus_unit(root, repo, name, tier, seed, work, want_canaries=True):
         r["wall_s"] = time.time() - t0
         return r
     if vr.status == "fail":
+        if getattr(vr, "limit_note", ""):
+            r["notes"].append(vr.limit_note)
         drift_fail = False
         for f in vr.failures:
             if not f.get("is_verification_failure"):
